@@ -94,28 +94,28 @@ theorem parseIntervalRaw_VE (b : Backend) (cs : List Char) : VE (parseIntervalRa
           | (rename_i heq2; cases h; exact isoAny_VE rk _ _ k heq2)
           | cases h
 
-theorem instanceDT_VE (tz : Option Int) (v : Value) : VE (instanceDT tz v) := by
+theorem instanceDT_VE (tz : TzOpt) (v : Value) : VE (instanceDT tz v) := by
   intro k h
   unfold instanceDT at h
-  split at h
-  · cases h
-  · cases h; exact Or.inr rfl
+  repeat' split at h
+  all_goals first | (cases h; exact Or.inr rfl) | cases h
 
 /-- inside `_interval` only ValueError and OverflowError can be raised -/
-theorem assembleRaw_kinds (b : Backend) (tz : Option Int) (r : IntervalRaw) (k : Kind)
+theorem assembleRaw_kinds (b : Backend) (tz : TzOpt) (r : IntervalRaw) (k : Kind)
     (h : assembleRaw b tz r = .error k) : k = .parserError ∨ k = .valueError ∨ k = .other "OverflowError" := by
   unfold assembleRaw at h
   repeat' split at h
   all_goals first
     | (cases h; exact Or.inr (Or.inr rfl))
     | (cases h; exact Or.inr (Or.inl rfl))
+    | (cases h; exact Or.inl rfl)
     | (rename_i heq; cases h; rcases instanceDT_VE _ _ k heq with h1 | h1
        · exact Or.inl h1
        · exact Or.inr (Or.inl h1))
     | cases h
 
 /-- … and `parse()` turns both into a `ParserError` -/
-theorem assemble_PE (b : Backend) (tz : Option Int) (r : IntervalRaw) (k : Kind) (h : assemble b tz r = .error k) :
+theorem assemble_PE (b : Backend) (tz : TzOpt) (r : IntervalRaw) (k : Kind) (h : assemble b tz r = .error k) :
     k = .parserError := by
   unfold assemble at h
   split at h
@@ -138,13 +138,23 @@ theorem wrap_VE (exact : Bool) (tz : Option Int) (now : Int × Int × Int) (v : 
   repeat' split at h
   all_goals first | (cases h; exact Or.inr rfl) | cases h
 
+theorem wrapTz_VE (exact : Bool) (tz : TzOpt) (now : Int × Int × Int) (v : Value) : VE (wrapTz exact tz now v) := by
+  intro k h
+  unfold wrapTz at h
+  split at h
+  · exact wrap_VE _ _ _ _ k h
+  · exact wrap_VE _ _ _ _ k h
+  · exact wrap_VE _ _ _ _ k h
+  · repeat' split at h
+    all_goals first | (cases h; exact Or.inr rfl) | cases h
+
 theorem finishOut_VE (b : Backend) (o : Options) (p : Parsed1) : VE (finishOut rk b o p) := by
   intro k h
   unfold finishOut at h
   repeat' split at h
   all_goals first
     | (cases h; exact Or.inl rfl)
-    | (rename_i heq; cases h; exact wrap_VE _ _ _ _ k heq)
+    | (rename_i heq; cases h; exact wrapTz_VE _ _ _ _ k heq)
     | (exact Or.inl (assemble_PE _ _ _ k h))
     | cases h
 
